@@ -211,8 +211,14 @@ def r19_3(ck: Check) -> None:
     h = ck.summ(CRP + ".handle_hello_message_received", 0)
     sph = Spec(h, ("self", "header", "message"))
     rst = [e for e in h.events if e.kind == "store" and e.term == sph.term("self.ban_score")]
+    # the greeting resets the counter of the connection that greeted, and of no other record (an entry waiting for its back-off keeps its k)
+    others = [e for e in h.events + d.events if e.kind == "store" and e.term[0] == "a" and e.term[2] == "ban_score" and e not in inc and e not in rst]
+    for e in others:
+        ck.violated("R19.3", "%s: only the record of the connection itself has its failure counter changed" % short(e.func),
+                    "%s — k counts consecutive OUTGOING attempts that ended without a greeting; wiping it on another event means the peer is "
+                    "never given up on and is retried sooner than min(10 s x 2^k, 30 min)" % e.describe()[:120], e.loc)
     if len(inc) == 1 and inc[0].value == spd.term("rp.ban_score + 1") and {c.term for c in inc[0].pc} == want_pc \
-            and len(rst) == 1 and rst[0].value == C(0) and not residual(rst[0], ()) and not extra:
+            and len(rst) == 1 and rst[0].value == C(0) and not residual(rst[0], ()) and not extra and not others:
         ck.ok("R19.3", construct, "k counts consecutive attempts that ended without a greeting", inc[0].loc)
     else:
         ck.violated("R19.3", construct, "increment %s; reset %s" % ([e.describe()[:120] for e in inc], [e.describe()[:80] for e in rst]), d.fi.loc)
@@ -307,6 +313,25 @@ def r19_6(ck: Check, rule: str = "R19.6") -> None:
                     "the per-connection catch-all and ends the network loop when it raises: %s" % [e.describe()[:200] for e in st], h.fi.loc)
 
 
+def _drop_row_filters(t: Any, dom: Term) -> Any:
+    """the term with every selection of rows of `dom` replaced by `dom` itself: `[r for r in dom if c]` -> dom, and conditions on a
+    comprehension over dom dropped"""
+    if not isinstance(t, tuple):
+        return t
+    if len(t) == 4 and t[0] == "comp" and isinstance(t[3], tuple) and len(t[3]) == 1:
+        d, conds = t[3][0]
+        d2 = _drop_row_filters(d, dom)
+        if d2 == dom:
+            if t[1] == "list" and t[2] == ("e", d, "elem"):
+                return dom
+            elt = _drop_row_filters(t[2], dom)
+            if d != d2:
+                from ..engine.terms import substitute
+                elt = _drop_row_filters(substitute(t[2], {d: d2}), dom)
+            return ("comp", t[1], elt, ((d2, ()),))
+    return tuple(_drop_row_filters(x, dom) for x in t)
+
+
 def r19_7(ck: Check) -> None:
     from .common import rule_ctor_identity
     rule_ctor_identity(ck, "R19.7", RPQ + "RemotePeer", ["host", "port", "direction", "last_connection_attempt", "ban_score"])
@@ -325,6 +350,19 @@ def r19_7(ck: Check) -> None:
             ck.violated("R19.7", construct, "%s" % [show(e.term)[:160] for e in sup], s.fi.loc)
     lp = ck.summ(RPQ + "load_peers_from_list", 0)
     from ..engine.match import require_return
+    # rows may be left out (a hand-edited file, a list from the web): the property is about the records that ARE created
+    lst = ("v", lp.fi.params[0])
+    rets = lp.returns()
+    if len(rets) == 1 and not residual(rets[0], ()):
+        from ..engine.terms import untag
+        want = Spec(lp, ("lst",)).term("{(host, port, direction): DisconnectedRemotePeer(host, port, direction, None, ban_score=0) "
+                                       "for (host, port, direction) in lst}")
+        got = untag(rets[0].term)
+        got2 = _drop_row_filters(got, lst)
+        if got != want and got2 == want:
+            ck.ok("R19.7", "load_peers_from_list returns a fresh record (never attempted, no failures) per row it keeps",
+                  "rows are filtered before the records are made; every record made is as specified", rets[0].loc)
+            return
     require_return(ck, "R19.7", lp, Spec(lp, ("lst",)),
                    "{(host, port, direction): DisconnectedRemotePeer(host, port, direction, None, ban_score=0) for (host, port, direction) in lst}",
                    "peers loaded from disk start disconnected, never attempted, with no failures")
